@@ -445,6 +445,42 @@ func idsBoundary(c *mon.Case) {
 		c.Sample(map[string]any{"id": id.ToToken(), "level": lvl})
 	}
 	checkID(c, id, true)
+	// the level of the lowest common ancestor with related cells, in both argument orders
+	{
+		partners := []s2.CellID{id, id.Parent(r.Intn(lvl + 1)), id.Next(), id.Prev(), id.EdgeNeighbors()[r.Intn(4)], gen.RandCellID(r, r.Intn(31))}
+		d := id
+		for d.Level() < 30 && r.Intn(6) != 0 {
+			d = d.Children()[r.Intn(4)]
+		}
+		partners = append(partners, d)
+		if k := r.Intn(lvl + 1); k < 30 { // a cell below a sibling of one of the ancestors
+			d = id.Parent(k).Children()[r.Intn(4)]
+			for d.Level() < 30 && r.Intn(4) != 0 {
+				d = d.Children()[r.Intn(4)]
+			}
+			partners = append(partners, d)
+		}
+		for _, o := range partners {
+			if !o.IsValid() {
+				continue
+			}
+			want, wantOK := -1, false
+			for L := minInt(id.Level(), o.Level()); L >= 0; L-- {
+				if id.Parent(L) == o.Parent(L) {
+					want, wantOK = L, true
+					break
+				}
+			}
+			c.Count("ids.common_ancestor_pairs", 1)
+			for _, pr := range [][2]s2.CellID{{id, o}, {o, id}} {
+				got, ok := pr[0].CommonAncestorLevel(pr[1])
+				if ok != wantOK || (ok && got != want) {
+					c.Violation("CommonAncestorLevel/wrong-answer", fmt.Sprintf("%s.CommonAncestorLevel(%s) = (%d,%v); the deepest level at which both have the same Parent is %d (exists: %v)", pr[0].ToToken(), pr[1].ToToken(), got, ok, want, wantOK), map[string]any{"a": pr[0].ToToken(), "b": pr[1].ToToken()})
+					break
+				}
+			}
+		}
+	}
 	// also its curve neighbours and its edge neighbours (these cross faces)
 	if r.Intn(3) == 0 {
 		checkID(c, id.EdgeNeighbors()[r.Intn(4)], true)
@@ -654,4 +690,11 @@ func points(c *mon.Case) {
 	}
 	_ = r3.Vector{}
 	_ = rand.Int
+}
+
+func minInt(a, b int) int {
+	if a < b {
+		return a
+	}
+	return b
 }
